@@ -19,7 +19,9 @@ CONSTANTS MaxN,        \* bound on leaves ever added
           MaxRst,      \* number of Restore calls per behaviour
           MaxProbe,    \* number of queries (Prove + Verify everywhere) recorded inside a history
           Acts,        \* enabled actions: subset of {"mod","undo","prove","restore","enc"}
-          MaxPerm      \* request orders: all permutations up to this size
+          MaxPerm,     \* request orders: all permutations up to this size
+          MinN,        \* wide configurations: every state with MinN <= n <= MaxN and at most
+          InitLive     \* InitLive live leaves is an initial state (InitLive < 0: start from the empty accumulator)
 
 VARIABLES n, live, stack, marks, hist
 
@@ -59,20 +61,23 @@ Emit(step, expect) ==
 (***************************************************************************)
 (* Steps (the records that are appended to hist and emitted)               *)
 (***************************************************************************)
-ModStep(ord, k, enc) ==
+NoEnc == [kind |-> "canon", junk |-> 0]
+
+ModStepAt(x, lv, ord, k, enc) ==
   LET D   == ToSet(ord)
-      lv2 == (live \ D) \cup (n..(n + k - 1))
+      lv2 == (lv \ D) \cup (x..(x + k - 1))
       \* an assembled encoding carries the canonical proofs it is assembled from
       encx == IF enc.kind = "addproof"
-              THEN enc @@ [pa |-> JProof(CanonProof(n, live, enc.a)), pb |-> JProof(CanonProof(n, live, enc.b))]
+              THEN enc @@ [pa |-> JProof(CanonProof(x, lv, enc.a)), pb |-> JProof(CanonProof(x, lv, enc.b))]
               ELSE IF enc.kind = "subset"
-              THEN enc @@ [psup |-> JProof(CanonProof(n, live, enc.sup))]
+              THEN enc @@ [psup |-> JProof(CanonProof(x, lv, enc.sup))]
               ELSE enc
   IN  [ a |-> "mod", d |-> ord, k |-> k, enc |-> encx,
-        pf   |-> JProof(CanonProof(n, live, ord)),
-        pre  |-> Roots(n, live),
-        post |-> Roots(n + k, lv2),
-        upd  |-> JUpd(UpdateDataRef(n, live, D, k)) ]
+        pf   |-> JProof(CanonProof(x, lv, ord)),
+        pre  |-> Roots(x, lv),
+        post |-> Roots(x + k, lv2),
+        upd  |-> JUpd(UpdateDataRef(x, lv, D, k)) ]
+ModStep(ord, k, enc) == ModStepAt(n, live, ord, k, enc)
 
 UndoStep ==
   LET prev == Head(stack)
@@ -86,7 +91,6 @@ UndoStep ==
 (* Encodings of a deletion proof that a verifier may accept (C05).         *)
 (* The abstract effect of the block does not depend on the encoding.       *)
 (***************************************************************************)
-NoEnc == [kind |-> "canon", junk |-> 0]
 Encs(D) ==
   IF "enc" \notin Acts \/ D = {} THEN {<<AscSeq(D), NoEnc>>}
   ELSE { <<o, [kind |-> "perm", junk |-> j]>> : o \in Orders(D), j \in 0..2 }
@@ -98,14 +102,29 @@ Encs(D) ==
 (***************************************************************************)
 (* Actions                                                                 *)
 (***************************************************************************)
-Init == /\ n = 0 /\ live = {} /\ stack = <<>> /\ marks = [und |-> 0, rst |-> 0, probe |-> 0]
-        /\ hist = <<>>
+\* the history that builds (x, lv) from the empty accumulator in two blocks:
+\* append x leaves, delete the dead ones
+InitHist(x, lv) ==
+  LET dead == (0..(x - 1)) \ lv IN
+  (IF x = 0 THEN <<>> ELSE <<ModStepAt(0, {}, <<>>, x, NoEnc)>>)
+    \o (IF dead = {} THEN <<>> ELSE <<ModStepAt(x, 0..(x - 1), AscSeq(dead), 0, NoEnc)>>)
+
+Init == /\ stack = <<>> /\ marks = [und |-> 0, rst |-> 0, probe |-> 0]
+        /\ IF InitLive < 0
+           THEN n = 0 /\ live = {} /\ hist = <<>>
+           ELSE /\ n \in MinN..MaxN
+                /\ live \in {S \in SUBSET (0..(n - 1)) : Cardinality(S) <= InitLive}
+                /\ hist = InitHist(n, live)
+
+\* wide configurations: blocks start from sparse states only
+WideOK == InitLive < 0 \/ Cardinality(live) <= InitLive
 
 Push(rec) == IF MaxStack = 0 THEN <<>>
              ELSE SubSeq(<<rec>> \o stack, 1, IF Len(stack) + 1 > MaxStack THEN MaxStack ELSE Len(stack) + 1)
 
 Modify ==
   /\ "mod" \in Acts
+  /\ WideOK
   /\ \E D \in SUBSET live, k \in 0..MaxAdds :
        /\ n + k <= MaxN
        /\ \E e \in Encs(D) :
